@@ -99,10 +99,18 @@ def _returned_as_computed(c, fn):
                     b_ = b_.value
                 if isinstance(b_, ast.Name) and b_.id in ret_names:
                     v_ = st_.value
-                    shape_only = isinstance(st_, ast.Assign) and isinstance(tg_, ast.Name) and isinstance(v_, ast.Call) and (
-                        (isinstance(v_.func, ast.Name) and v_.func.id in ("array", "asarray", "stack", "vstack") and len(v_.args) == 1
-                         and U(v_.args[0]) == b_.id) or
-                        (isinstance(v_.func, ast.Attribute) and v_.func.attr in SHAPE_ONLY and U(v_.func.value) == b_.id))
+                    e_ = v_
+                    while True:
+                        if isinstance(e_, ast.Call) and isinstance(e_.func, ast.Name) and e_.func.id in ("array", "asarray", "stack", "vstack", "squeeze") \
+                                and len(e_.args) >= 1:
+                            e_ = e_.args[0]
+                        elif isinstance(e_, ast.Call) and isinstance(e_.func, ast.Attribute) and e_.func.attr in SHAPE_ONLY:
+                            e_ = e_.func.value
+                        elif isinstance(e_, ast.Attribute) and e_.attr == "T":
+                            e_ = e_.value
+                        else:
+                            break
+                    shape_only = isinstance(st_, ast.Assign) and isinstance(tg_, ast.Name) and isinstance(e_, ast.Name) and e_.id == b_.id
                     if not shape_only:
                         bad.append((sorted(ret_names).index(b_.id), "a statement after the per-point loop", U(st_)))
     msg = ""
